@@ -640,3 +640,79 @@ Lemma plaintext_footer_metadata_absent :
   In ("MetaData"%string, Absent) (footer_chunk false) /\
   In ("EncryptedColumnMetadata"%string, Sealed MColMeta) (footer_chunk false).
 Proof. split; vm_compute; tauto. Qed.
+
+(** * Writer options: which EncryptionConfig the writer of the file uses *)
+Section WoptInd.
+  Variable P : wopt -> Prop.
+  Hypothesis HO : P WOther.
+  Hypothesis HE : forall c, P (WEnc c).
+  Hypothesis HC : forall l, Forall P l -> P (WConf l).
+  Fixpoint wopt_ind' (o : wopt) : P o :=
+    match o with
+    | WOther => HO
+    | WEnc c => HE c
+    | WConf l =>
+        HC l ((fix go (l : list wopt) : Forall P l :=
+                 match l with
+                 | [] => Forall_nil P
+                 | o :: r => Forall_cons o (wopt_ind' o) (go r)
+                 end) l)
+    end.
+End WoptInd.
+
+Definition last_opt (l : list N) : option N := last (map Some l) None.
+Definition or_else (a cur : option N) : option N := match a with Some c => Some c | None => cur end.
+
+Lemma last_opt_app a b : last_opt (a ++ b) = or_else (last_opt b) (last_opt a).
+Proof.
+  unfold last_opt. rewrite map_app.
+  induction b as [|x b IH] using rev_ind.
+  - cbn. rewrite app_nil_r. now destruct (last (map Some a) None).
+  - rewrite map_app. cbn [map]. rewrite app_assoc, !last_last. reflexivity.
+Qed.
+
+Lemma or_else_assoc a b c : or_else a (or_else b c) = or_else (or_else a b) c.
+Proof. now destruct a. Qed.
+
+Lemma apply_wopt_spec : forall o cur, apply_wopt cur o = or_else (last_opt (enc_mentions o)) cur.
+Proof.
+  induction o as [|c|l IH] using wopt_ind'; intros cur; cbn [apply_wopt enc_mentions].
+  - reflexivity.
+  - reflexivity.
+  - assert (H : forall acc, fold_left apply_wopt l acc = or_else (last_opt (flat_map enc_mentions l)) acc).
+    { induction IH as [|o r Ho _ IHr]; intros acc; cbn [fold_left flat_map]; [reflexivity|].
+      rewrite IHr, Ho, last_opt_app. apply or_else_assoc. }
+    rewrite H. now destruct (last_opt (flat_map enc_mentions l)).
+Qed.
+
+Lemma apply_wopts_spec l cur :
+  fold_left apply_wopt l cur = or_else (last_opt (flat_map enc_mentions l)) cur.
+Proof.
+  revert cur. induction l as [|o r IH]; intros cur; cbn [fold_left flat_map]; [reflexivity|].
+  rewrite IH, apply_wopt_spec, last_opt_app. apply or_else_assoc.
+Qed.
+
+(** Whatever the constructor and however the options are nested in
+    configurations, the writer uses the configuration named last. *)
+Theorem effective_encryption_spec ct l :
+  effective_encryption ct l = last_opt (flat_map enc_mentions l).
+Proof.
+  destruct ct; unfold effective_encryption.
+  - rewrite apply_wopts_spec. now destruct (last_opt (flat_map enc_mentions l)).
+  - rewrite apply_wopts_spec. cbn [flat_map enc_mentions]. rewrite app_nil_r.
+    now destruct (last_opt (flat_map enc_mentions l)).
+Qed.
+
+Lemma last_opt_some l : l <> [] -> exists c, last_opt l = Some c /\ In c l.
+Proof.
+  intros Hl. destruct (exists_last Hl) as (l' & c & ->). exists c. split.
+  - unfold last_opt. rewrite map_app. cbn [map]. now rewrite last_last.
+  - apply in_or_app. right. now left.
+Qed.
+
+(** In particular: when some option, at any depth, names an EncryptionConfig,
+    the writer encrypts, with one of the configurations named. *)
+Corollary encryption_not_dropped ct l :
+  flat_map enc_mentions l <> [] ->
+  exists c, effective_encryption ct l = Some c /\ In c (flat_map enc_mentions l).
+Proof. intros H. rewrite effective_encryption_spec. now apply last_opt_some. Qed.
